@@ -27,9 +27,10 @@ BLANK = C(b"")
 
 
 class Undecided(Exception):
-    def __init__(self, what):
+    def __init__(self, what, term=None):
         Exception.__init__(self, what)
         self.what = what
+        self.term = term  # the term whose emptiness the path leaves open (the driver then tries both answers)
 
 
 class Facts:
@@ -38,6 +39,7 @@ class Facts:
     def __init__(self, ctx, f, st):
         self.ctx, self.f, self.st = ctx, f, st
         self.eng = S(ctx)
+        self.assumed = {}
         self.truth = {}
         self.rels = []
         for t, pol, _ in st.log:
@@ -56,6 +58,8 @@ class Facts:
         return self.eng.ev(ast.parse(src, mode="eval").body, self.f, st)
 
     def nonempty(self, t, what):
+        if t in self.assumed:
+            return self.assumed[t]
         v = self.truth.get(t)
         if v is not None:
             return v
@@ -70,7 +74,7 @@ class Facts:
                     return False
                 if op == "!=":
                     return True
-        raise Undecided(what)
+        raise Undecided(what, term=t)
 
     def eq(self, a, b, what):
         for op, l, r in self.rels:
@@ -124,9 +128,9 @@ def ref_set(q):
     if ks == frozenset(["BLANK"]):
         return q.ref("[compute_leaf_key(trie_key), value]")
     if ks <= frozenset(["LEAF", "EXT"]) and ks:
-        return q.ref("self._set_kv_node(node, trie_key, value)")
+        return _delegated(q, "self._set_kv_node(node, trie_key, value)", "_set_kv_node", ref_set_kv)
     if ks == frozenset(["BRANCH"]):
-        return q.ref("self._set_branch_node(node, trie_key, value)")
+        return _delegated(q, "self._set_branch_node(node, trie_key, value)", "_set_branch_node", ref_set_branch)
     raise Undecided("the type of the node")
 
 
@@ -138,10 +142,23 @@ def ref_delete(q):
     if ks == frozenset(["BLANK"]):
         return BLANK
     if ks <= frozenset(["LEAF", "EXT"]) and ks:
-        return q.ref("self._delete_kv_node(node, trie_key)")
+        return _delegated(q, "self._delete_kv_node(node, trie_key)", "_delete_kv_node", ref_delete_kv)
     if ks == frozenset(["BRANCH"]):
-        return q.ref("self._delete_branch_node(node, trie_key)")
+        return _delegated(q, "self._delete_branch_node(node, trie_key)", "_delete_branch_node", ref_delete_branch)
     raise Undecided("the type of the node")
+
+
+def _delegated(q, call_src, name, reff):
+    """A row that hands the case to another function of the family: either the call, or - when the work was moved
+    into the caller (a function split along its case distinction, the halves inlined) - the value the delegate's
+    own table gives under this path's conditions.  Rows decided in place count as rows of the delegate."""
+    call = q.ref(call_src)
+    if q.st.ret == call:
+        return call
+    want = reff(q)  # Undecided / Mismatch of the delegate's table apply to this path
+    cnt = q.ctx.cache.setdefault("hextab-inplace", {})
+    cnt[name] = cnt.get(name, 0) + 1
+    return want if isinstance(want, set) else {want}
 
 
 def ref_set_branch(q):
@@ -170,12 +187,19 @@ def ref_delete_branch(q):
 def ref_delete_kv(q):
     ck = q.ref("extract_key(node)")
     ksw = q.truth.get(q.ref("key_starts_with(trie_key, extract_key(node))"))
+    if ksw is False:
+        return N
+    try:
+        ext = q.node_is_ext()
+    except Undecided:
+        if ksw is None:
+            raise Undecided("whether the key continues the node's path")
+        raise
+    if not ext:
+        # a leaf goes away exactly when the key is its key (which implies that the key continues its path)
+        return BLANK if q.eq(K, ck, "whether the key is exactly the leaf's key") else N
     if ksw is None:
         raise Undecided("whether the key continues the node's path")
-    if not ksw:
-        return N
-    if not q.node_is_ext():
-        return BLANK if q.eq(K, ck, "whether the key is exactly the leaf's key") else N
     new = q.ref("self._delete(self.get_node(node[1]), trie_key[len(extract_key(node)):])")
     enc = q.ref("self._persist_node(X)", X=new)
     if q.eq(enc, q.ref("node[1]"), "whether the re-persisted child differs from the stored one"):
@@ -297,6 +321,28 @@ TABLE = [
 ]
 
 
+def _split_cases(q, reff, u, depth=0):
+    """reference values under both answers to the open question(s); None if a question is not a yes / no on a term"""
+    if u.term is None or depth > 3:
+        return None
+    out = []
+    for v in (True, False):
+        q.assumed[u.term] = v
+        try:
+            out.append(reff(q))
+        except Undecided as u2:
+            sub = _split_cases(q, reff, u2, depth + 1)
+            if sub is None:
+                q.assumed.pop(u.term, None)
+                return None
+            out += sub
+        except Mismatch:
+            q.assumed.pop(u.term, None)
+            return None
+    q.assumed.pop(u.term, None)
+    return out
+
+
 @rule("HEXTAB", ["C01", "C02", "C06"])
 def hextab(ctx, pid):
     """Outcome tables of the hexary insert / delete family (see the module docstring)."""
@@ -312,6 +358,12 @@ def hextab(ctx, pid):
             try:
                 want = reff(q)
             except Undecided as u:
+                # the path leaves a case distinction of the table open: fine if the value it returns is the
+                # reference's value in every one of the open cases (two rows that were merged)
+                alts = _split_cases(q, reff, u)
+                if alts is not None and all(st.ret in (w_ if isinstance(w_, set) else {w_}) for w_ in alts):
+                    rows += len(alts)
+                    continue
                 unsure.append((p.exit[1], "a path returns `%s` without deciding %s" % (tstr(st.ret)[:60], u.what)))
                 continue
             except Mismatch as m:
@@ -329,7 +381,7 @@ def hextab(ctx, pid):
         elif unsure:
             node, why = unsure[0]
             ctx.unsure(c, f.loc(node), why)
-        elif rows < min_rows:
+        elif rows + ctx.cache.get("hextab-inplace", {}).get(name, 0) < min_rows:
             ctx.unsure(c, f.loc(), "only %d return paths were classified, %d were confirmed by hand" % (rows, min_rows))
         else:
             ctx.ok(c, f.loc(), "%d return paths: every returned value is the one the reference table gives for the path's conditions" % rows)
@@ -696,7 +748,7 @@ def maptab(ctx, pid):
     direct = lambda x: ("call", HEX + "._create_node_to_db_mapping", (SELF, x), ())  # noqa: E731
     tup = ("call", "trie.hexary:tuplify", (gn,), ())
     lst = ("call", "trie.hexary:listify", (hn,), ())
-    okg = {st.ret for p, st in pq.states(ctx, g) if p.exit[0] == "return"} <= {direct(gn), ("call", HEX + "._cached_create_node_to_db_mapping", (SELF, tup), ())}
+    okg = pq.rets(ctx, g) <= {direct(gn), ("call", HEX + "._cached_create_node_to_db_mapping", (SELF, tup), ())}
     for p, st in pq.states(ctx, g):
         if p.exit[0] == "return" and st.ret != direct(gn):
             rels, truth = _log(st)
